@@ -389,6 +389,23 @@ theorem C17_text_roundtrip_string (showCost : Rat → Str) (rowCost : Codes → 
   ⟨renderBody_no_nl showCost rowCost readCost width hw b hb hc,
     parse_render_text showCost rowCost readCost width hw b hb hc⟩
 
+/-- **The same with the strict reader**, which also checks that the lines follow the grammar of the body
+(`bucket = blank heading section*`, `section = blank title blank header rule row* blank ---`): the model writes
+texts of that grammar, as lines and as one text. This is the reader the driver runs on the real reports. -/
+theorem C17_text_roundtrip_strict (showCost : Rat → Str) (rowCost : Codes → Rat → Str) (readCost : Str → Option Rat)
+    (width : Nat) (hw : 0 < width) (b : List (Bucket × List Section))
+    (hb : okBody b = true) (hc : costsOK showCost rowCost readCost b = true) :
+    parseBodyStrict readCost (renderBody showCost rowCost width b) = some b ∧
+      parseBodyStrict readCost (splitLines (joinLines (renderBody showCost rowCost width b))) = some b :=
+  ⟨parse_render_body_strict showCost rowCost readCost width hw b hb hc,
+    parse_render_text_strict showCost rowCost readCost width hw b hb hc⟩
+
+/-- What the strict reader returns is what `parseBody` returns (so `C17_text_reader_counts` and
+`C17_text_reader_sound` hold for it). -/
+theorem C17_text_strict_le (readCost : Str → Option Rat) (lines : List Str) (b : List (Bucket × List Section))
+    (h : parseBodyStrict readCost lines = some b) : parseBody readCost lines = some b :=
+  parseBodyStrict_le readCost lines b h
+
 /-- Two reports with the same body text have the same structured body. -/
 theorem C17_text_injective (showCost : Rat → Str) (rowCost : Codes → Rat → Str) (readCost : Str → Option Rat)
     (width : Nat) (hw : 0 < width) (b b' : List (Bucket × List Section))
@@ -510,5 +527,13 @@ example : parseBody readDecimal (["", "## 2 programs of learning cost 0", "", "#
 example : (parseBody readDecimal (["", "## 1 program of learning cost 0", "", "### Program a.py (learning cost 0.0)",
     "", "---"].map String.toList)).isSome = true := by decide +kernel
 example : parseBody readDecimal (["| 0.5 | `z` | _imported_ |"].map String.toList) = none := by decide +kernel
+-- A table rule before the table header: read by `parseBody`, refused by the strict reader; in order: accepted.
+example : (parseBody readDecimal (["", "## 1 program of learning cost 0", "", "### Program a.py (learning cost 0.0)", "",
+      "|----|----|----|", "| Cost  | Taxon | Location |", "", "---"].map String.toList)).isSome = true ∧
+    parseBodyStrict readDecimal (["", "## 1 program of learning cost 0", "", "### Program a.py (learning cost 0.0)", "",
+      "|----|----|----|", "| Cost  | Taxon | Location |", "", "---"].map String.toList) = none ∧
+    (parseBodyStrict readDecimal (["", "## 1 program of learning cost 0", "", "### Program a.py (learning cost 0.0)", "",
+      "| Cost  | Taxon | Location |", "|----|----|----|", "", "---"].map String.toList)).isSome = true := by
+  decide +kernel
 
 end Paroxy.Props.C17
